@@ -41,16 +41,24 @@ def genC16Stmt (nested : Bool) : G Stmt := do
   let (s, _) ← g.run 0
   pure s
 
-/-- known-finding class (DESIGN.md L10): the shared property tree holds at least two annotations
-    and a property that becomes private is a combination — after the collapse of the tree's
-    root the combination's values are not withdrawn from the shared properties -/
+partial def exprLeafCount : Expr → Nat
+  | .leaf _ => 1
+  | .comb _ l r => exprLeafCount l + exprLeafCount r
+  | .chain _ a b es => exprLeafCount a + exprLeafCount b + (es.map exprLeafCount).foldl (· + ·) 0
+  | .shared _ e _ => exprLeafCount e
+
+/-- known-finding class (DESIGN.md L10): the shared property tree has at least three values of
+    which at least two become private — the first removal may collapse the tree's root by
+    copying, after which further removals edit a detached copy and the values stay shared -/
 def kfC16 (s : Stmt) : String :=
   let anns := s.parts.filterMap fun p => match p with | .ann h _ e => some (h, e) | _ => none
   let isProp := fun (h : Hdr) => h.sym.isProperty || h.sym.name = str "Cex"
   let compSfx := (anns.filter (fun a => !isProp a.1)).filterMap (fun a => a.1.sfx)
   let props := anns.filter (fun a => isProp a.1)
-  let matchedComb := props.any fun a => (match a.1.sfx with | some x => compSfx.contains x | none => false) && a.2.hasOp
-  if props.length ≥ 2 && matchedComb then "C16-combination-stays-shared" else ""
+  let total := (props.map (fun a => exprLeafCount a.2)).foldl (· + ·) 0
+  let matched := ((props.filter fun a => (match a.1.sfx with | some x => compSfx.contains x | none => false)).map
+    (fun a => exprLeafCount a.2)).foldl (· + ·) 0
+  if total ≥ 3 && matched ≥ 2 then "C16-removal-after-root-collapse" else ""
 
 def genC16Cases (tier : String) (seed : Nat) : Array Case := Id.run do
   let n := if tier = "thorough" then 4000 else 300
